@@ -273,7 +273,7 @@ Section Pager.
     exists k st',
       call st rq = (st', Some (mkRep true
                                      (if Nat.ltb k (length (from start all)) then Consts.INSUFFICIENT_PACKETS else Consts.SUCCESS)
-                                     (flat_map (enc_wentry wa) (firstn k (from start all)))))
+                                     (flat_map (enc_wentry wa) (firstn k (from start all))) false))
       /\ Inv st' /\ (k <= length (from start all))%nat /\ (from start all <> [] -> (1 <= k)%nat).
 
   Hypothesis peer : paging_peer.
